@@ -536,13 +536,13 @@ template <bool UND> struct WgSlot : SlotBase {
         }
         if (verb == "addEdge") {
             if (a.size() != 4 || !pv(a[0], i) || !pv(a[1], j) || !pw(a[2], w) || !pf(a[3], f)) return false;
-            out = guard([&] { g.addEdge(i, j, (double)(w / 4.0L), f); return std::string("ok"); });
+            out = guard([&] { g.addEdge(i, j, (double)(w / 4.0L * g_wscale), f); return std::string("ok"); });
             return true;
         }
         if (verb == "addReciprocalEdge") return recip(a, out);
         if (verb == "setEdgeWeight") {
             if (a.size() != 3 || !pv(a[0], i) || !pv(a[1], j) || !pw(a[2], w)) return false;
-            out = guard([&] { g.setEdgeWeight(i, j, (double)(w / 4.0L)); return std::string("ok"); });
+            out = guard([&] { g.setEdgeWeight(i, j, (double)(w / 4.0L * g_wscale)); return std::string("ok"); });
             return true;
         }
         if (verb == "removeEdge") {
@@ -907,7 +907,12 @@ int main(int argc, char **argv) {
         std::string t = trim(line);
         if (t.empty() || t[0] == '#') { if (echoFile.is_open()) echoFile << t << "\n"; continue; }
         if (t == "mode quiet" || t == "mode verbose") { quiet = (t == "mode quiet"); o << "> " << t << "\n"; if (echoFile.is_open()) echoFile << t << "\n"; continue; }
-        if (t == "reset") { slots.clear(); quiet = false; o << "R reset\n"; o.flush(); if (echoFile.is_open()) { echoFile << t << "\n"; echoFile.flush(); } continue; }
+        if (t.compare(0, 12, "mode wscale ") == 0) {
+            Args ws = split(t);
+            long double a_ = 1, b_ = 1;
+            if (ws.size() == 4 && pw(ws[2], a_) && pw(ws[3], b_) && a_ > 0 && b_ > 0) { g_wscale = a_ / b_; o << "> " << t << "\n"; if (echoFile.is_open()) echoFile << t << "\n"; continue; }
+        }
+        if (t == "reset") { slots.clear(); quiet = false; g_wscale = 1.0L; o << "R reset\n"; o.flush(); if (echoFile.is_open()) { echoFile << t << "\n"; echoFile.flush(); } continue; }
         Args w = split(t);
         g_skipDump = quiet && !w.empty() && w[0] != "dump";
         std::string echo = t;
